@@ -120,6 +120,10 @@ func c09Compare(c *mc.Ctx, st ion.SymbolTable, ref *refsym.Table, what string) (
 					return
 				}
 			default:
+				if id >= 1 && ref.Slots[id-1].Padding && found {
+					_, ok = fail("FindByID-padding", "FindByID(%d)=(%q,true) for a padding slot of an import (text must be undefined)", id, text)
+					return
+				}
 				// undefined slot: the text must not be some other symbol's text ("" is ion-go's padding value)
 				if text != "" {
 					_, ok = fail("FindByID-undefined", "FindByID(%d)=%q for a slot with undefined text", id, text)
@@ -142,6 +146,10 @@ func c09Compare(c *mc.Ctx, st ion.SymbolTable, ref *refsym.Table, what string) (
 					return
 				}
 			default:
+				if id >= 1 && ref.Slots[id-1].Padding && tok.Text != nil {
+					_, ok = fail("TokenBySID-padding", "NewSymbolTokenBySID(%d) has text %q for a padding slot", id, *tok.Text)
+					return
+				}
 				if tok.Text != nil && *tok.Text != "" {
 					_, ok = fail("TokenBySID-undefined", "NewSymbolTokenBySID(%d)=%v for undefined text", id, tok.String())
 					return
